@@ -191,11 +191,13 @@ def read_result(midi_io, pm):
 
 
 # ----------------------------------------------------------------------------- generators
-def us_tempo(rng):
-    """a microsecond-representable tempo (qpm = 6e7 / integer microseconds per quarter), 40..300 qpm"""
+def us_tempo(rng, family=None):
+    """a microsecond-representable tempo (qpm = 6e7 / integer microseconds per quarter), 40..300 qpm; with `family` half of
+    them from the ends of the storable range: 'slow' = 3.58 qpm (16777215 us, the largest 3-byte value), 'fast' = 1000..3000 qpm.
+    (One family per sequence: a slow and a fast tempo in one map make a few seconds tens of millions of ticks.)"""
     us = rng.choice([500000, 250000, 1000000, 600000, rng.randint(200000, 1500000), rng.randint(200000, 1500000)])
-    if rng.random() < 0.03:
-        us = rng.choice([16777215, 16777214, 8388608, 20000, 60000])     # slowest storable tempo (3.58 qpm) … 3000 qpm
+    if family and rng.random() < 0.5:
+        us = rng.choice([16777215, 16777214, 8388608] if family == 'slow' else [20000, 60000])
     return 6e7 / us
 
 
@@ -264,6 +266,9 @@ def gen_valid(rng, long_times=False):
     span = rng.choice([1.0, 4.0, 8.0]) if not long_times else rng.choice([60.0, 200.0, 400.0])
     # tempo map: distinct times, microsecond-representable, stored in random order
     tempos = []
+    family = rng.choice(['slow', 'fast']) if rng.random() < 0.04 and not long_times else None
+    if family:
+        hist.add('tempo:range-end-' + family)
     k = rng.random()
     if k < 0.12:
         hist.add('tempo:none')
@@ -282,7 +287,7 @@ def gen_valid(rng, long_times=False):
             else:
                 times.add(rng.choice([0.5, 1.0, 2.25, round(rng.uniform(0.01, span), 3), rng.uniform(0.01, span)]))
         for t in sorted(times):
-            tempos.append((t, us_tempo(rng)))
+            tempos.append((t, us_tempo(rng, family)))
         hist.add('tempo:%d' % n)
     stored = list(tempos)
     rng.shuffle(stored)
@@ -351,6 +356,8 @@ def gen_valid(rng, long_times=False):
         ell = F(2) if kk < 0.35 else F(5, 2) if kk < 0.45 else F(rng.uniform(2, 40)) if kk < 0.8 else F(rng.uniform(2, 2000))
         if kk < 0.35:
             hist.add('note:two-ticks')
+        if family and ell * tm.local_tick(F(a), F(a)) > 20:      # range-end tempos: keep the sequence within ~10^6 ticks
+            ell = max(F(2), F(20) / tm.local_tick(F(a), F(a)))
         b = float(F(a) + ell * tm.local_tick(F(a), F(a)))
         # at least two ticks long, judged by the longest tick in force around the note
         for _ in range(4):
@@ -872,21 +879,26 @@ def oracle(ns, r, default_qpm=120.0):
     probes.update((a + b) / 2 for a, b in zip(ps, ps[1:]))
     probes.add(ps[-1] + 1)
 
-    def clear_of(t, *fields):
-        # farther than one tick from every change of that kind (an event at exactly 0 is not a change)
-        return all(abs(t - F(e.time)) > tol(t) for f in fields for e in f if F(e.time) > 0)
+    # exact times of the changes of each kind, input and result together (an event at exactly 0 is not a change)
+    change_times = {k: [F(e.time) for f in (getattr(ns, k), getattr(r, k)) for e in f if F(e.time) > 0]
+                    for k in ('tempos', 'time_signatures', 'key_signatures')}
+
+    def clear_of(t, kind):
+        # farther than one tick from every change of that kind
+        tt = tol(t)
+        return all(abs(t - u) > tt for u in change_times[kind])
     for t in sorted(probes):
-        if clear_of(t, ns.tempos, r.tempos):
+        if clear_of(t, 'tempos'):
             qi = in_effect(ns.tempos, t, lambda e: F(e.qpm), F(default_qpm))
             qo = in_effect(r.tempos, t, lambda e: F(e.qpm), F(default_qpm))
             if qo <= 0 or abs(F(60000000) / qi - F(60000000) / qo) > 1 + F(1, 1000):
                 return 'tempo in effect at %s: %s -> %s qpm' % (float(t), float(qi), float(qo))
-        if clear_of(t, ns.time_signatures, r.time_signatures):
+        if clear_of(t, 'time_signatures'):
             a = in_effect(ns.time_signatures, t, lambda e: (e.numerator, e.denominator), (4, 4))
             b = in_effect(r.time_signatures, t, lambda e: (e.numerator, e.denominator), (4, 4))
             if a != b:
                 return 'time signature in effect at %s: %s -> %s' % (float(t), a, b)
-        if clear_of(t, ns.key_signatures, r.key_signatures):
+        if clear_of(t, 'key_signatures'):
             a = in_effect(ns.key_signatures, t, lambda e: (e.key, e.mode), None)
             b = in_effect(r.key_signatures, t, lambda e: (e.key, e.mode), None)
             if a != b:
@@ -1174,6 +1186,12 @@ def history_case(midi_io, a, b, drop_a, drop_b, path):
     return done()
 
 
+def unknown_failures(chk):
+    """failures that are not instances of an open known finding (those never stop a stream early)"""
+    open_ids = {e['id'] for e in chk.known if e.get('status') == 'open'}
+    return sum(1 for f in chk.failures if f['finding'] not in open_ids)
+
+
 def report(chk, what, replay_input, finding=None):
     """a statement-level failure -> chk.fail (concrete failing input); a CORR finding -> broken correspondence."""
     if what.startswith(CORR):
@@ -1187,7 +1205,8 @@ def run_history(midi_io, a, b, da, db, path):
     try:
         return history_case(midi_io, a, b, da, db, path)
     except Exception as e:  # pylint: disable=broad-except
-        return 'a call of the history raised %s: %s' % (type(e).__name__, str(e)[:160]), None, []
+        f4 = isinstance(e, ValueError) and 'power of 2' in str(e) and any(log2_inexact(t.denominator) for x in (a, b) for t in x.time_signatures)
+        return 'a call of the history raised %s: %s' % (type(e).__name__, str(e)[:160]), 'F-C03-4' if f4 else None, []
 
 
 # ----------------------------------------------------------------------------- corpus
@@ -1400,7 +1419,7 @@ def run(chk):
             rt_real.append((kind, 'err ' + what[len(RAISED):].split(':')[0]))
         if what:
             report(chk, what, {'sequence': nswire.encode(ns), 'drop': drop}, finding)
-            if len(chk.failures) > 20:
+            if unknown_failures(chk) > 20:
                 break
     # (d) CALL HISTORIES over every public function of the property (file variants included): same arguments twice,
     # result of call 1 edited in place before call 2, the same path written twice, arguments compared byte for byte
@@ -1418,7 +1437,7 @@ def run(chk):
             if what:
                 report(chk, what, {'history': 'writer twice / same path rewritten / re-read after caller edit', 'sequence': nswire.encode(a),
                                    'second': nswire.encode(b), 'drop': da, 'second_drop': db}, finding)
-                if len(chk.failures) > 25:
+                if unknown_failures(chk) > 25:
                     break
     finally:
         for f in os.listdir(tmpd):
